@@ -157,10 +157,12 @@ def morgan_generator(
     for _ in itertools.repeat(None):
         for ids, nbrs in id_nbrs_tuple_list:
             # Compute the new hash for each atom based on its own color
-            # and the colors of its neighbors
+            # and the colors of its neighbors. The (well mixed) neighbor
+            # hash goes first: the tuple hash is weak if its first entries
+            # are small numbers such as atomic numbers.
             nbrs_hash = numpy_int_multiset_hash(atom_hash[nbrs])
             atom_hash[ids] = numpy_int_tuple_hash(
-                np.stack((atom_hash[ids], nbrs_hash), axis=-1)
+                np.stack((nbrs_hash, atom_hash[ids]), axis=-1)
             )
         atom_hash_view = atom_hash.view()
         atom_hash_view.setflags(write=False)
